@@ -17,8 +17,8 @@ INFO = dict(
 def run(ctx):
     res = Result()
     n = ctx.n(3, 5 if ctx.search else 20)
-    seeds = [ctx.rng.randrange(1 << 30) for _ in range(n + 2)]
-    kinds = ["random"] * n + ["equal_rates", "equal_rates"]
+    seeds = [ctx.rng.randrange(1 << 30) for _ in range(n + 3)]
+    kinds = ["random"] * n + ["equal_rates", "equal_rates", "trainable"]
     tasks = [dict(fn="tasks_rt:sched_case", args=dict(seed=s, spec_kind=k, dynamic=True, modes=("MCS", "GENERATIONAL"), prunes=(True, False)), timeout=1500) for s, k in zip(seeds, kinds)]
     good = ac.pool_cases(tasks, res, timeout=1500)
     cmds, meta = [], []
